@@ -84,8 +84,8 @@ def responses (cl sv : Ctx) (observe : Bool) (newmid : Option Nat) :
       | none, _ => " resp=bad-input"
       | some _, none => " resp=fail" ++ responses cl sv observe newmid sb cbind seq rest
       | some rm, some b =>
-        let fresh := f = "1" || hasObserve rm.opts
-        match protectResponse aes128 sv b rm (if fresh then some seq else none) newmid with
+        let fresh := ownPiv (f = "1") observe rm          -- D14.5: `observe` = the request carried Observe
+        match protectResponseFor aes128 sv b observe rm (f = "1") seq newmid with
         | none => " resp=fail" ++ responses cl sv observe newmid sb cbind seq rest
         | some pm =>
           let dg := encodeUdp pm
@@ -205,8 +205,8 @@ def oseqSteps (cl sv : Ctx) (newmid : Option Nat) : (fuel : Nat) → SeqSt → L
     match (bytesOfHex resp).bind (Spec.decode .udp) with
     | none => { st with out := st.out ++ " resp=bad-input" }
     | some rm =>
-      let fresh := f = "1" || hasObserve rm.opts
-      match serverSend aes128 sv st.sst rm (if fresh then some st.sseq else none) newmid with
+      let fresh := serverOwnPiv st.sst rm (f = "1")
+      match serverSend aes128 sv st.sst rm (f = "1") st.sseq newmid with
       | none => oseqSteps cl sv newmid fuel { st with out := st.out ++ " resp=fail" } rest
       | some (pm, sst') =>
         let dg := encodeUdp pm
@@ -393,8 +393,8 @@ def oinjStep (w : List String) : String :=
           if which = "q" then some (pm, sv, none, rm, []) else
           match deliver sv none (encodeUdp pm), (bytesOfHex resp).bind (Spec.decode .udp) with
           | some (.ok _ b), some rsp =>
-            let fresh := f = "1" || hasObserve rsp.opts
-            (protectResponse aes128 sv b rsp (if fresh then some sseq else none) (sepMidOf newmid)).map
+            let fresh := ownPiv (f = "1") (hasObserve rm.opts) rsp
+            (protectResponseFor aes128 sv b (hasObserve rm.opts) rsp (f = "1") sseq (sepMidOf newmid)).map
               fun p => (p, cl, some (rm.token, cb), rsp, if fresh then pivBytes sseq else pivBytes cseq)
           | _, _ => none
         match target with
@@ -474,13 +474,15 @@ def oscxSteps (cls : List Ctx) (pairs : List (Nat × Nat × Ctx)) (store : M.Osc
   | fuel + 1, st, "r" :: k :: resp :: f :: how :: rest =>
     match k.toNat?.bind (fun k => (cls[k]?).map fun c => (k, c)), (bytesOfHex resp).bind (Spec.decode .udp) with
     | some (k, cl), some rm =>
-      let fresh := f = "1" || hasObserve rm.opts
+      let fresh := serverOwnPivAny st.sst rm (f = "1")     -- S, D14.5
       -- S: the context bound to the token (D14.19) and ITS Sender Sequence Number
       let ci : Option Nat := (cFind st.sst rm.token).bind fun e => (pairs.find? fun p => p.2.2 = e.ctx).map (·.1)
       let seq := ci.map fun i => st.sseqs.getD i 0
       -- M: association->recipient_ctx selects the Sender Context; the association goes unless is_observe
       let mctx := M.Oscore.srvResponseCtx st.srv rm.token
-      match serverSendAny aes128 st.sst rm (if fresh then seq else none) newmid with
+      -- M: does the response take a Sender Sequence Number (association->is_observe forces it, fix ae365ed)
+      let mfresh := (M.Oscore.srvOwnPiv st.srv rm.token (hasObserve rm.opts) (f = "1")).getD false
+      match serverSendAny aes128 st.sst rm (f = "1") (seq.getD 0) newmid with
       | none =>
         oscxSteps cls pairs store newmid fuel
           { st with out := st.out ++ " resp=fail",
@@ -493,7 +495,7 @@ def oscxSteps (cls : List Ctx) (pairs : List (Nat × Nat × Ctx)) (store : M.Osc
                                         | none => st.sseqs),
                              sst := sst', srv := srv', out := st.out ++ " resp=" ++ hexOrDash dg,
                              tr := st.tr ++ " p:" ++ (match mctx with
-                                                      | some p => if fresh then toString p.1 else "-"
+                                                      | some p => if mfresh then toString p.1 else "-"
                                                       | none => "-") ++
                                    " a:" ++ showSAssoc (M.Oscore.findSAssoc srv'.as rm.token) }
         let st2 :=
@@ -582,7 +584,7 @@ def tamperStep (w : List String) : String :=
           if which = "q" then some (pm, sv, none) else
           match deliver sv none (encodeUdp pm), (bytesOfHex resp).bind (Spec.decode .udp) with
           | some (.ok _ b), some rsp =>
-            (protectResponse aes128 sv b rsp (if f = "1" || hasObserve rsp.opts then some sseq else none) (sepMidOf newmid)).map
+            (protectResponseFor aes128 sv b (hasObserve rm.opts) rsp (f = "1") sseq (sepMidOf newmid)).map
               fun p => (p, cl, some (rm.token, cb))
           | _, _ => none
         match target with
